@@ -11,8 +11,14 @@ accelerator class and are not modelled.  Errors of the real code (`KeyError`, `A
 the error reported is the one of the LAST offending op.
 
 The programs are a small structured IR of its own (another file owns the accfg pass models): setups,
-launches, awaits, opaque ops, `if` and `for`, every op carrying the number of `!accfg.state`-typed
-operands/results/block arguments it mentions, which `DeleteAllStates` brings to zero.  No Mathlib.
+launches, awaits, opaque ops (carrying the number of `!accfg.state`-typed operands/results they mention),
+`if` and `for`.  An `if`/`for` carries its results positionally as a list of *slots*: a slot is either the
+accelerator state (result, block argument, init operand and yield operand of `!accfg.state` type) or a data
+value (`scf.for`: result, block argument, init operand, yielded value; `scf.if`: result and the value yielded
+by either branch).  The terminating `scf.yield` is part of the slots, not of the body.  `DeleteAllStates`
+removes the state slots and keeps the data slots IN ORDER (old result i is re-bound to the new result at its
+rank among the survivors); that order is what the semantics below observes: results are bound from the yields
+position by position.  No Mathlib.
 -/
 namespace SnaxVerif.CsrLower
 open SnaxVerif.RegMap (Dict lookup)
@@ -40,14 +46,33 @@ inductive Err
   | assertLaunch   -- AssertionError: `assert "launch" in field`
 deriving DecidableEq, Repr
 
+/-- one loop-carried position of an `scf.for` -/
+inductive FSlot
+  | state
+  | data (res arg init yld : Var)
+deriving DecidableEq, Repr
+
+/-- one result position of an `scf.if` -/
+inductive ISlot
+  | state
+  | data (res yT yE : Var)
+deriving DecidableEq, Repr
+
+def FSlot.isData : FSlot → Bool
+  | .state => false
+  | .data .. => true
+def ISlot.isData : ISlot → Bool
+  | .state => false
+  | .data .. => true
+
 mutual
 inductive Stmt
   | setup (acc : String) (ps : List (String × Var × Bool))   -- Bool: the value has `index` type
   | launch (acc : String) (ps : List (String × Var))
   | await (acc : String)
   | op (tag : Nat) (nState : Nat)
-  | ifS (tag : Nat) (nState : Nat) (t e : Block)
-  | forS (tag : Nat) (nState : Nat) (body : Block)
+  | ifS (tag : Nat) (slots : List ISlot) (t e : Block)
+  | forS (tag : Nat) (slots : List FSlot) (body : Block)
 inductive Block
   | nil
   | cons (s : Stmt) (r : Block)
@@ -60,8 +85,8 @@ inductive CStmt
   | clear                      -- csrw 965 (i12), 0 (i5)
   | nop
   | op (tag : Nat) (nState : Nat)
-  | ifS (tag : Nat) (nState : Nat) (t e : CBlock)
-  | forS (tag : Nat) (nState : Nat) (body : CBlock)
+  | ifS (tag : Nat) (slots : List ISlot) (t e : CBlock)
+  | forS (tag : Nat) (slots : List FSlot) (body : CBlock)
 inductive CBlock
   | nil
   | cons (s : CStmt) (r : CBlock)
@@ -129,17 +154,17 @@ def lowerStmt (ds : List Decl) : Stmt → Except Err (List CStmt)
     | none => .error .noAcc
     | some d => .ok (lowerAwait d)
   | .op tag _ => .ok [.op tag 0]
-  | .ifS tag _ t e =>
+  | .ifS tag slots t e =>
     match lowerBlock ds e with
     | .error x => .error x
     | .ok e' =>
       match lowerBlock ds t with
       | .error x => .error x
-      | .ok t' => .ok [.ifS tag 0 t' e']
-  | .forS tag _ b =>
+      | .ok t' => .ok [.ifS tag (slots.filter ISlot.isData) t' e']
+  | .forS tag slots b =>
     match lowerBlock ds b with
     | .error x => .error x
-    | .ok b' => .ok [.forS tag 0 b']
+    | .ok b' => .ok [.forS tag (slots.filter FSlot.isData) b']
 /-- a block, last op first -/
 def lowerBlock (ds : List Decl) : Block → Except Err CBlock
   | .nil => .ok .nil
@@ -156,8 +181,8 @@ mutual
 /-- number of `!accfg.state`-typed operands, results and block arguments left in a lowered program -/
 def CStmt.stateCount : CStmt → Nat
   | .op _ n => n
-  | .ifS _ n t e => n + t.stateCount + e.stateCount
-  | .forS _ n b => n + b.stateCount
+  | .ifS _ sl t e => (sl.filter (fun x => !x.isData)).length + t.stateCount + e.stateCount
+  | .forS _ sl b => (sl.filter (fun x => !x.isData)).length + b.stateCount
   | _ => 0
 def CBlock.stateCount : CBlock → Nat
   | .nil => 0
@@ -167,9 +192,11 @@ end
 /-! ## semantics: traces of register writes -/
 
 /-- everything the models do not interpret: values of SSA variables, the effect of opaque ops on the data
-state, branch outcomes, trip counts, binding of induction variables -/
+state, branch outcomes, trip counts, binding of induction variables; `set` binds an SSA value (results and
+block arguments of `if`/`for`) -/
 structure Sem (σ : Type) where
   val : Var → σ → Int
+  set : Var → Int → σ → σ
   opSem : Nat → σ → σ
   cond : Nat → σ → Bool
   trips : Nat → σ → Nat
@@ -188,6 +215,20 @@ inductive CEv
   | op (tag : Nat)
 deriving DecidableEq, Repr
 
+/-- the data positions of a loop / a conditional, in order -/
+def fData : List FSlot → List (Var × Var × Var × Var)
+  | [] => []
+  | .state :: r => fData r
+  | .data a b c d :: r => (a, b, c, d) :: fData r
+def iData : List ISlot → List (Var × Var × Var)
+  | [] => []
+  | .state :: r => iData r
+  | .data a b c :: r => (a, b, c) :: iData r
+
+/-- simultaneous assignment `targets := sources` (all sources are read before any target is written) -/
+def assign {σ : Type} (sem : Sem σ) (ps : List (Var × Var)) (s : σ) : σ :=
+  (ps.map (fun p => (p.1, sem.val p.2 s))).foldl (fun s' p => sem.set p.1 p.2 s') s
+
 /-- run `f 0, f 1, …, f (n-1)` threading the state, concatenating the traces -/
 def iterN {σ ε : Type} (f : Nat → σ → σ × List ε) : Nat → Nat → σ → σ × List ε
   | 0, _, s => (s, [])
@@ -202,8 +243,20 @@ def execS {σ : Type} (sem : Sem σ) : Stmt → σ → σ × List Ev
   | .launch acc ps, s => (s, ps.map (fun p => Ev.launchW acc p.1 (sem.val p.2 s)))
   | .await acc, s => (s, [Ev.await acc])
   | .op tag _, s => (sem.opSem tag s, [Ev.op tag])
-  | .ifS tag _ t e, s => if sem.cond tag s then execB sem t s else execB sem e s
-  | .forS tag _ b, s => iterN (fun i s' => execB sem b (sem.iter tag i s')) (sem.trips tag s) 0 s
+  | .ifS tag sl t e, s =>
+    if sem.cond tag s then
+      let r := execB sem t s
+      (assign sem ((iData sl).map (fun x => (x.1, x.2.1))) r.1, r.2)
+    else
+      let r := execB sem e s
+      (assign sem ((iData sl).map (fun x => (x.1, x.2.2))) r.1, r.2)
+  | .forS tag sl b, s =>
+    -- block arguments := inits; per iteration: body, then block arguments := yields; results := block arguments
+    let r := iterN (fun i s' =>
+        let r := execB sem b (sem.iter tag i s')
+        (assign sem ((fData sl).map (fun x => (x.2.1, x.2.2.2))) r.1, r.2))
+      (sem.trips tag s) 0 (assign sem ((fData sl).map (fun x => (x.2.1, x.2.2.1))) s)
+    (assign sem ((fData sl).map (fun x => (x.1, x.2.1))) r.1, r.2)
 def execB {σ : Type} (sem : Sem σ) : Block → σ → σ × List Ev
   | .nil, s => (s, [])
   | .cons st r, s =>
@@ -219,8 +272,19 @@ def execCS {σ : Type} (sem : Sem σ) : CStmt → σ → σ × List CEv
   | .clear, s => (s, [CEv.w clearAddr 0])
   | .nop, s => (s, [])
   | .op tag _, s => (sem.opSem tag s, [CEv.op tag])
-  | .ifS tag _ t e, s => if sem.cond tag s then execCB sem t s else execCB sem e s
-  | .forS tag _ b, s => iterN (fun i s' => execCB sem b (sem.iter tag i s')) (sem.trips tag s) 0 s
+  | .ifS tag sl t e, s =>
+    if sem.cond tag s then
+      let r := execCB sem t s
+      (assign sem ((iData sl).map (fun x => (x.1, x.2.1))) r.1, r.2)
+    else
+      let r := execCB sem e s
+      (assign sem ((iData sl).map (fun x => (x.1, x.2.2))) r.1, r.2)
+  | .forS tag sl b, s =>
+    let r := iterN (fun i s' =>
+        let r := execCB sem b (sem.iter tag i s')
+        (assign sem ((fData sl).map (fun x => (x.2.1, x.2.2.2))) r.1, r.2))
+      (sem.trips tag s) 0 (assign sem ((fData sl).map (fun x => (x.2.1, x.2.2.1))) s)
+    (assign sem ((fData sl).map (fun x => (x.1, x.2.1))) r.1, r.2)
 def execCB {σ : Type} (sem : Sem σ) : CBlock → σ → σ × List CEv
   | .nil, s => (s, [])
   | .cons st r, s =>
